@@ -340,7 +340,7 @@ type loadedLog struct {
 
 func TestC09(t *testing.T) {
 	c := ev.Get("C09")
-	c.Rule = "a generated multi-replica program (default or link-key codec, both orderings, skip references from pointer counts up to 64) builds log states - in about one program in five the log continues, under its own id, a history of 1-9 entries written under another log id, which every replica holds from the start; one replica state is reloaded 1-3 times, each with a generated loader (manifest / JSON heads / head entries / head hash when single-headed), fetch concurrency in {default,1,2,3,16} and - in 3 of 4 loads - a gated store whose outstanding block reads are released in a generated order. In one program in six the ungated loads run next to a rival load of the same heads in the same process that gives up after 1-12 block reads (reads take 1 ms then). Now and then (one program in 250) one block takes 2.6 s to arrive during an ungated load without deadline: the load waits for it. Every loaded entry must have the content it was written with (payload, links, clock, key, signature). The loaded log must have the same id, entry set (== model set), heads (== unreferenced in the model) and values (== reference sort when strict-total, permutation otherwise). Non-trivial = source with >= 2 heads or skip references and at least one read completed out of issue order; distinct = distinct program. In a quarter of the programs the caller keeps one LogOptions value for all its loads and has used it before for a load of an older state of the log."
+	c.Rule = "a generated multi-replica program (default or link-key codec, both orderings, skip references from pointer counts up to 64) builds log states - in about one program in five the log continues, under its own id, a history of 1-9 entries written under another log id, which every replica holds from the start; one replica state is reloaded 1-3 times, each with a generated loader (manifest / JSON heads / head entries / head hash when single-headed), fetch concurrency in {default,1,2,3,16} and - in 3 of 4 loads - a gated store whose outstanding block reads are released in a generated order. In one program in six the ungated loads run next to a rival load of the same heads in the same process that gives up after 1-12 block reads (reads take 1 ms then). Now and then (one program in 250) one block takes 2.6 s to arrive during an ungated load without deadline: the load waits for it. Every loaded entry must have the content it was written with (payload, links, clock, key, signature). The loaded log must have the same id, entry set (== model set), heads (== unreferenced in the model) and values (== reference sort when strict-total, permutation otherwise). Non-trivial = source with >= 2 heads or skip references and at least one read completed out of issue order; distinct = distinct program. In a quarter of the programs the caller keeps one LogOptions value for all its loads and has used it before for a load of an older state of the log. Such a caller also keeps one fetch-options value per options type, used before for a load of another log written with another codec configuration."
 	c.Assumptions = []string{"completion orders are produced by a polling controller (settle window 300µs): every order it produces is legal, but a given schedule may map to different orders on a loaded machine; the realised order is stored in the replay file and enforced on replay", "the legacy codec is not reloaded (it cannot read back the v2 entries it writes)"}
 	ev.Check(t, "C09", genC09, runC09)
 }
